@@ -29,6 +29,11 @@ def run(facts, chk, tier, only=None):
     chk.guard('C17.sub', 'C17.sub:run', lambda: subs.check(facts, chk, 'C17.sub'))
     from . import lo_e2e
     chk.guard('C17.e2e', 'C17.e2e:run', lambda: lo_e2e.check_snps(facts, chk, 'C17.e2e', tier))
+    # reference mode (-r): coordinates, REF / ALT / genotypes of the SNP VCF and the pseudo-genomes
+    chk.guard('C17.e2e', 'C17.e2e:run-ref', lambda: lo_e2e.check_snps_ref(facts, chk, 'C17.e2e', tier))
+    # the Lo arm of main: the named file, in its own width, and every command-line value reach skalo
+    from . import cli_more
+    chk.guard('C17.cli', 'C17.cli:run0', lambda: cli_more.check_lo_arm(facts, chk, 'C17.cli', tier))
     from . import c18
     chk.guard('C17.leaf', 'C17.leaf:run', lambda: c18.check_graph_leaves(facts, chk, 'C17.leaf'))
     av = facts.fn(PV + 'analyse_variant_groups')
